@@ -39,8 +39,9 @@ METH = {"GET": 1, "POST": 2, "PUT": 8}
 TARGETS = ["/a", "/a/b", "/a%2Fb", "/a%2fb", "/%61", "/a?x=1", "/a%3Fx", "/admin%00x", "/a%00", "/zz%00", "/a/", "/a/../a",
            "/A", "/a%", "/a%zz", "/a%2", "/b", "/admin", "/a#f", "/a%252Fb", "http://v.example.com/a", "http://plain.test:81/admin?q",
            "http://alias.test", "/a/b?x#y", "/%2e%2e/a"]
-HOSTS = ["", "plain.test", "v.example.com", "V.Example.COM", "v.example.com:8080", "v.example.com.", "alias.test", "ALIAS.test:80",
-         "www.example.com", "www.deep.example.com", "exact.test", "exact.test:", "example.com", "root.test", "a.example.org",
+HOSTS = ["www.example.com", "www2.example.com", "www22.example.com:80", "a.test", "ba.test", "xy.org", "xay.org", "XYb.org", "xaybb.org",
+         "ww.example.com", "", "plain.test", "v.example.com", "V.Example.COM", "v.example.com:8080", "v.example.com.", "alias.test", "ALIAS.test:80",
+         "www.deep.example.com", "exact.test", "exact.test:", "example.com", "root.test", "a.example.org",
          "xexact.test"]
 
 
@@ -48,8 +49,8 @@ def run(tier, seed):
     q = tier == "quick"
     chk = vkit.Check("C30", tier, seed)
     exe = vkit.cc("http_drv", ["http_drv.c"])
-    consts = {"Configs": {"flat", "nogen", "vhosts", "shadow"} if not q else {"flat", "vhosts", "shadow"},
-              "Targets": set(TARGETS), "Hosts": set(HOSTS) if not q else set(HOSTS[:12]),
+    consts = {"Configs": {"flat", "nogen", "vhosts", "shadow", "stars"} if not q else {"flat", "vhosts", "shadow", "stars"},
+              "Targets": set(TARGETS) if not q else set(TARGETS[:18] + TARGETS[20:23]), "Hosts": set(HOSTS) if not q else set(HOSTS[:19]),
               "Methods": {"GET", "POST", "PUT"} if not q else {"GET", "PUT"},
               "Masks": vkit_sets([{"GET"}, {"GET", "POST"}, {"GET", "POST", "PUT"}] if not q else [{"GET"}, {"GET", "POST", "PUT"}])}
     cfg = write_cfg("C30_gen", consts)
